@@ -142,6 +142,9 @@ fn build(tier: Tier) -> Box<dyn Check> {
         &["\"p\"", "\"p \"", "\" p\""],
         &["\"é\"", "\"e\u{301}\"", "\"e\""],
         &["\"1\"", "\"1.0\"", "\"01\""],
+        &["\"7\"", "\"7.0\"", "\"07\""],
+        &["\"7\"", "\" 7\"", "\"7e0\""],
+        &["\"0\"", "\"-0\"", "\"0.0\""],
         &["\"true\"", "\"TRUE\"", "true"],
         &["\"a\nb\"", "\"a\"", "\"a\\nb\""],
         &["\"\\\"", "\"\\\\\""],
@@ -165,6 +168,7 @@ fn build(tier: Tier) -> Box<dyn Check> {
             for op in ["join x\nsay x\n", "join x with \",\"\nsay x\n", "say x at x\n", "put x into y\njoin y into z\nsay z\nsay x is y\n"] {
                 conf.push((format!("{}put x into dd\n{}", build, op), k));
             }
+            conf.push((format!("{}put x into dd\nsay x at 0\nsay x at 1\nsay x at 2\nsay x at 7\nsay x at 10\nsay x at 1.0\n", build), k));
             let reads: String = g.iter().map(|key| format!("say x at {}\n", key)).collect();
             conf.push((format!("{}put x into dd\n{}", build, reads), k));
         }
@@ -233,6 +237,8 @@ fn run_one_text(text: &str) -> (String, String) {
             Ok(p) => {
                 let lint = rrss::linter::standard_linter().run(&p);
                 obs.push_str(&format!("lint:{}|", lint));
+                // and through the function-style entry point of the command-line layer
+                obs.push_str(&format!("cli-lint:{}|", rrss::cli::linter::run(text).map(|o| o.to_string()).unwrap_or_else(|_| "error".into())));
                 let mut out = Vec::new();
                 {
                     let env = Environment::refcell_raw(&b"in\n"[..], &mut out);
